@@ -174,6 +174,7 @@ def gen(seed, tier):
         return [r.randrange(256) for _ in range(n)]
 
     reps = 1 if quick else 12
+    small = 0
     for lb in range(0, 256):
         for ty in [0, 1, 2, 255, r.randrange(256)]:
             for _ in range(reps):
@@ -197,7 +198,10 @@ def gen(seed, tier):
         add('GETSTR %d %d %d %d %d %s' % (size, ln, r.choice([255, 64, 0, 65, r.randrange(256)]), idx, dl, hx(d)))
         if ln <= 120:
             # the unsized GetStr writes Length+1 bytes; a few too small destinations check that the model's OOB is the sanitizer's
-            usize = ln + 1 if r.random() < 0.9 else r.choice([ln, max(0, ln - 1), 0, ln + 5])
+            usize = ln + 1
+            if r.random() < 0.1 and small < 40:          # (each one is a sanitizer abort and a harness restart: keep them few)
+                usize = r.choice([ln, max(0, ln - 1), 0, ln + 5])
+                small += usize < ln + 1
             add('GETSTRU %d %d %d %d %s' % (usize, ln, idx, dl, hx(d)))
     return cases
 
